@@ -1,5 +1,6 @@
 #!/bin/bash
 # tools/confirm_wave.sh <prefix> <pid> ...  — confirms every seeded change /tmp/<prefix>-<pid>/m*/ (one parallel stream per property); writes /tmp/<prefix>-<pid>/confirm.txt
+ROOT="$(cd "$(dirname "${BASH_SOURCE[0]}")/.." && pwd)"
 prefix="$1"; shift
 for p in "$@"; do
   (
@@ -8,7 +9,7 @@ for p in "$@"; do
       m=$(basename $d); [ -f $d/patch.diff ] || continue
       wt=/tmp/wt-confirm-$p-$$
       git -C /repo worktree add -q --detach $wt HEAD
-      c=$(/verif/tools/confirm_mutant.sh $wt $d 2>&1 | grep -A8 RESULT | head -12)
+      c=$($ROOT/tools/confirm_mutant.sh $wt $d 2>&1 | grep -A8 RESULT | head -12)
       git -C /repo worktree remove --force $wt
       echo "$p $m | $c" >> /tmp/$prefix-$p/confirm.txt
     done
